@@ -42,6 +42,11 @@ pub enum Attack {
     /// deriving `u` too early would accept); on an honest proof or on a
     /// forced proof of a violating assignment
     LateBoundOpenings { early: u8, shift: Fe, edits: Option<Vec<(u16, Fe)>> },
+    /// the prover proves one public-input vector (a satisfied instance) and
+    /// hashes another one into the transcript - the claimed statement; the
+    /// claimed vector differs at `count` positions chosen from the tail, the
+    /// head or anywhere
+    ClaimedInputs { region: u8, count: u8, with: Fe },
 }
 
 #[derive(Debug, Clone, Serialize, Deserialize)]
@@ -69,8 +74,10 @@ fn case_strategy(_t: Tier) -> BoxedStrategy<Case> {
         1 => Just(Attack::Degenerate),
         2 => (0u8..2, prop_oneof![Just(Fe(F::one())), fe_random()], proptest::option::of(edits()))
             .prop_map(|(early, shift, edits)| Attack::LateBoundOpenings { early, shift, edits }),
+        3 => (0u8..3, 1u8..18, fe_random()).prop_map(|(region, count, with)| Attack::ClaimedInputs { region, count, with }),
     ];
-    (prog::ops_strategy(10, 2, 0), attack, any::<u64>())
+    // a fifth of the circuits carry a long run of public inputs
+    (prog::with_pi_burst(prog::ops_strategy(10, 2, 0), 200), attack, any::<u64>())
         .prop_map(|(ops, attack, seed)| Case { ops, attack, seed })
         .boxed()
 }
@@ -213,6 +220,7 @@ fn check(ctx: &Ctx, c: &Case) -> PResult {
                         random_t: random_t.then_some(c.seed ^ 9),
                         solve_eval: Some(*eval as usize),
                         shift_eval: None,
+                        transcript_pi: None,
                     }
                 }
                 _ => unreachable!(),
@@ -297,6 +305,51 @@ fn check(ctx: &Ctx, c: &Case) -> PResult {
                 )?;
             }
         }
+        Attack::ClaimedInputs { region, count, with } => {
+            if n > 128 {
+                ctx.excluded("circuit too large for the reference prover");
+                return Ok(());
+            }
+            if honest_pi.is_empty() {
+                ctx.excluded("no public input to lie about");
+                return Ok(());
+            }
+            let srs = refprover::srs_for(cap, &pp, n + 7);
+            let keys = refprover::ref_keys(&layout, b"c02", &srs).ok_or_else(|| Fail::new("refprover-commit", "key"))?;
+            let len = honest_pi.len();
+            let k = (*count as usize).min(len);
+            let mut claimed = honest_pi.clone();
+            let positions: Vec<usize> = match region % 3 {
+                0 => (len - k..len).collect(),
+                1 => (0..k).collect(),
+                _ => (0..k).map(|j| (j * 7 + c.seed as usize) % len).collect(),
+            };
+            for (j, p) in positions.iter().enumerate() {
+                claimed[*p] += with.0 + F::from(j as u64 + 1);
+            }
+            if claimed == honest_pi {
+                ctx.excluded("nothing forged");
+                return Ok(());
+            }
+            let bl = crate::fe::f_stream(c.seed, 14);
+            let mut b14 = [F::zero(); 14];
+            b14.copy_from_slice(&bl);
+            let dev = Deviation { transcript_pi: Some(claimed.clone()), ..Default::default() };
+            let out = match refprover::prove(&keys, &layout, &srs, &snap.witnesses, &snap.public_inputs, &b14, Version::V3, &dev) {
+                Ok(o) => o,
+                Err(e) => {
+                    ctx.label(&format!("reference prover stopped: {e}"));
+                    return Ok(());
+                }
+            };
+            let cls = format!(
+                "malicious prover: proves one public-input vector, hashes another ({} of {} entries differ, {})",
+                if k == 1 { "1" } else { "2+" },
+                match len { 0..=15 => "<16", 16..=31 => "16-31", 32..=63 => "32-63", _ => "64+" },
+                ["tail", "head", "spread"][(*region % 3) as usize]
+            );
+            c03::compare(ctx, &cls, &verifier, &rv, &out.proof.to_bytes(), &claimed, v3, Some(false))?;
+        }
         Attack::Degenerate => {
             let (p1, pi) = sys::prove(&prover, &program, c.seed).map_err(|e| Fail::new("prove-error", format!("{e:?}")))?;
             let honest = p1.to_bytes().to_vec();
@@ -335,6 +388,6 @@ pub fn props() -> Vec<(Box<dyn PropDyn>, u32, u32)> {
 }
 
 pub fn describe(ctx: &Ctx) {
-    ctx.rule("adversarial proofs for generated circuits: (1) the real proving algorithm forced past its unsatisfied-circuit check (remainder dropped) on assignments the reference evaluator classifies as violating (witness overrides; one broken component of a raw row of each custom gate family), offered under V3/V2/V1 and with altered public inputs; (2) an independent malicious prover (harness/src/refprover.rs) with deviations {remainder dropped; arbitrary grand product and/or quotient with one of the 15 evaluations solved after the challenge so that the linearisation identity holds - the generalised unbound-evaluation attack; one evaluation shifted}; (3) all 52 single-field and all-but-one-field splices of two valid proofs; (4) degenerate proofs; (5) the two opening commitments of an honest or forced proof shifted as a cancelling pair computed from a folding challenge u learnt before the pair is absorbed (u is the one challenge the prover never computes, so only this attack distinguishes a verifier that derives it too early). Oracle: verify returns Err for every version without panicking and the reference verifier rejects too. non-trivial = the adversarial proof decodes and reaches the equation; distinct by hash of (proof bytes, label, version, public inputs)");
+    ctx.rule("adversarial proofs for generated circuits: (1) the real proving algorithm forced past its unsatisfied-circuit check (remainder dropped) on assignments the reference evaluator classifies as violating (witness overrides; one broken component of a raw row of each custom gate family), offered under V3/V2/V1 and with altered public inputs; (2) an independent malicious prover (harness/src/refprover.rs) with deviations {remainder dropped; arbitrary grand product and/or quotient with one of the 15 evaluations solved after the challenge so that the linearisation identity holds - the generalised unbound-evaluation attack; one evaluation shifted}; (3) all 52 single-field and all-but-one-field splices of two valid proofs; (4) degenerate proofs; (5) the two opening commitments of an honest or forced proof shifted as a cancelling pair computed from a folding challenge u learnt before the pair is absorbed (u is the one challenge the prover never computes, so only this attack distinguishes a verifier that derives it too early); (6) a prover that proves one public-input vector and hashes another (the claimed statement) into the transcript, the vectors differing in 1..17 entries at the tail / head / spread, on circuits with up to 130 public inputs. Oracle: verify returns Err for every version without panicking and the reference verifier rejects too. non-trivial = the adversarial proof decodes and reaches the equation; distinct by hash of (proof bytes, label, version, public inputs)");
     ctx.assume("soundness against ALL prover strategies is not decided by exploration; only the listed strategies are covered (DESIGN.md section 8)");
 }
